@@ -336,6 +336,8 @@ func TestC12(t *testing.T) {
 
 var c12Corpus = []string{
 	`query ($a: Int @d, $b: [T!]! = [1] @e(x: 1) @f) { a }`,
+	// adjacent runes that each need an escape when printed
+	"{ a(x: \"\uFEFF\uFFFE\", y: \"\uE000\uE001\", z: \"\u0001\u0002\", w: \"\uFFFF\uFFFF\") }", `{ a(x: "\uFEFF\uFFFE", y: "\uE000\uF8FF") }`,
 	`{ a(x: "\u0007") }`, `{ a(x: "\u007f") }`, `{ a(x: "\u000b") }`, "{ a(x: \"\U000E0001\") }", `{ a(x: "­​ \uFEFF") }`, `{ a(x: "\"\\\/\b\f\n\r\t") }`,
 	`{ a(x: """a"b\""" """) }`, "{ a(x: \"\"\"  l1\n    l2\n\"\"\") }", `fragment F($v: Int = 1 @d) on T @e { ...G @h ... on T @i { a } ... @j { b } }`,
 	`query Q { a: a b: c ...F ... { d } }`, `subscription S @a(x: {k: [1, {l: $v}], m: null, n: E, o: true, p: 1.5e3}) { a }`, "# c\nquery #c2\nQ #c3\n{ #c4\n a #c5\n}#c6",
